@@ -492,7 +492,7 @@ def _main(ctx, args):
         if not ok2:
             xl_broken = dict(XR.diagnose(prop, out2, LEAN), build_output=out2[-3000:])
     xl_mods, xl_thms = (list(xl["lean_modules"]), list(xl["theorems"])) if xl and not xl_broken else ([], [])
-    aud = {"obligations": len(mod.THEOREMS), "discharged": 0, "problems": ["build failed"], "axioms": []}
+    aud = {"obligations": len(mod.THEOREMS) + len(xl_thms), "discharged": 0, "problems": ["build failed"], "axioms": []}
     if not build_broken:
         aud = audit(list(mod.LEAN_MODULES) + xl_mods, list(mod.THEOREMS) + xl_thms, leanchecker=(tier == "thorough"))
         if aud["problems"] and not hasattr(mod, "gen_tables") and not xl:
